@@ -31,6 +31,10 @@ pub enum Loc {
     /// at the leaf of the most recently added key that is still present (builds
     /// degenerate, very deep trees), falling back to the smallest key
     AtNewest { right: bool },
+    /// a block that is not part of the tree any more (freed by a delete; it still holds
+    /// the bytes of the node that used to live there); falls back to out-of-range when
+    /// there is no free block
+    AtFreed { nth: u32 },
 }
 
 #[derive(Serialize, Deserialize, Clone, Debug, PartialEq)]
@@ -144,7 +148,7 @@ impl Model {
                             Expect::Ok
                         }
                     }
-                    Loc::OutOfRange { .. } | Loc::AtInternal => Expect::Err("bad_location"),
+                    Loc::OutOfRange { .. } | Loc::AtInternal | Loc::AtFreed { .. } => Expect::Err("bad_location"),
                 }
             }
             Op::Upsert { key, hash, .. } => match self.hashes.get(hash) {
@@ -583,6 +587,31 @@ impl C18 {
                                 }
                             }
                         }
+                        Loc::AtFreed { nth } => {
+                            // blocks not reachable from the root
+                            let nblocks = before.len() / BLOCK_SIZE;
+                            let mut reachable = vec![false; nblocks];
+                            let mut stack = if nblocks > 0 { vec![TreeIndex(0)] } else { vec![] };
+                            let mut guard_count = 0usize;
+                            while let Some(i) = stack.pop() {
+                                guard_count += 1;
+                                if guard_count > nblocks + 1 || (i.0 as usize) >= nblocks || reachable[i.0 as usize] {
+                                    continue;
+                                }
+                                reachable[i.0 as usize] = true;
+                                if let Ok(Node::Internal(n)) = blob.get_node(i) {
+                                    stack.push(n.left);
+                                    stack.push(n.right);
+                                }
+                            }
+                            let free: Vec<usize> = (0..nblocks).filter(|i| !reachable[*i]).collect();
+                            if free.is_empty() {
+                                InsertLocation::Leaf { index: TreeIndex(nblocks as u32 + 1), side: Side::Left }
+                            } else {
+                                c.inc("probe.insert_at_freed_block");
+                                InsertLocation::Leaf { index: TreeIndex(free[*nth as usize % free.len()] as u32), side: if nth % 2 == 0 { Side::Left } else { Side::Right } }
+                            }
+                        }
                         Loc::AtInternal => {
                             let idx = if model.kv.len() >= 2 { 0 } else { (before.len() / BLOCK_SIZE) as u32 + 1 };
                             InsertLocation::Leaf { index: TreeIndex(idx), side: Side::Right }
@@ -869,6 +898,7 @@ impl Gen<'_> {
             10..=15 => Loc::AtKey { rank: self.rng.below(64) as u32, right: self.rng.chance(1, 2) },
             16 | 17 => Loc::AsRoot,
             18 => Loc::OutOfRange { beyond: self.rng.below(3) as u32 },
+            _ if self.rng.chance(1, 2) => Loc::AtFreed { nth: self.rng.below(8) as u32 },
             _ => Loc::AtInternal,
         }
     }
@@ -898,7 +928,7 @@ impl Engine for C18 {
             components_stub: vec!["reference model: BTreeMap key -> (value, leaf hash)", "independent SHA-256 (sha2 crate) root and proof recomputation"],
             assumptions: vec![
                 "restart = the object is dropped and rebuilt from read_blob() bytes (memory) or from to_path/from_path; files are never damaged (the property promises nothing about damaged bytes)",
-                "InsertLocation::Leaf is only pointed at a live leaf, the root internal node or an out-of-range block, never at a freed block",
+                "InsertLocation::Leaf is pointed at live leaves, the root internal node, out-of-range blocks and freed blocks (the last three must be rejected)",
                 "hashes are examined only after calculate_lazy_hashes",
                 "sampling: a clean batch is evidence, not proof",
             ],
